@@ -132,7 +132,8 @@ func lemmaFreqHasLocsRoundTrip(freq uint64, hasLocs bool) {
 //@ func (*Segment).closeActual returns (err)
 //@ thin
 //@ tags [C20]
-//@ requires s.synIndexCache != nil && muHeld(s.synIndexCache.m) == 0
+//@ requires muHeld(s.m) == 2 [C20]
+//@ requires s.synIndexCache != nil && muHeld(s.synIndexCache.m) == 0 && vecCacheFree(s)
 //@ requires s.mm != nil ==> mmMapped(base(s.mm))
 //@ requires s.f != nil ==> fileOpen(s.f)
 //@ ensures old(s.mm) != nil ==> !mmMapped(old(base(s.mm))) && mmUnmaps(old(base(s.mm))) == old(mmUnmaps(base(s.mm))) + 1 && $liveMaps == old($liveMaps) - 1
@@ -143,10 +144,14 @@ func lemmaFreqHasLocsRoundTrip(freq uint64, hasLocs bool) {
 //@ ensures muHeld(s.m) == old(muHeld(s.m))
 //@ end
 
+// the reference count is read and written only under the segment's mutex, and the resources are released
+// while it is still held (so two holders dropping the last two references cannot both see zero)
+//@ guarded Segment.refs by m
+
 //@ func (*Segment).DecRef returns (err)
 //@ thin
 //@ tags [C20]
-//@ requires s.synIndexCache != nil && muHeld(s.synIndexCache.m) == 0
+//@ requires s.synIndexCache != nil && muHeld(s.synIndexCache.m) == 0 && vecCacheFree(s)
 //@ requires muHeld(s.m) == 0
 //@ requires s.refs == 1 ==> (s.mm != nil ==> mmMapped(base(s.mm))) && (s.f != nil ==> fileOpen(s.f))
 //@ ensures s.refs == old(s.refs) - 1 || old(s.refs) == -9223372036854775808
@@ -156,17 +161,20 @@ func lemmaFreqHasLocsRoundTrip(freq uint64, hasLocs bool) {
 //@ ensures old(s.refs) == 1 && old(s.mm) != nil ==> !mmMapped(old(base(s.mm))) && mmUnmaps(old(base(s.mm))) == old(mmUnmaps(base(s.mm))) + 1
 //@ ensures old(s.refs) == 1 && s.f != nil ==> !fileOpen(s.f) && fileCloses(s.f) == old(fileCloses(s.f)) + 1
 //@ ensures old(s.refs) == 1 && old(s.mm) != nil && s.f != nil ==> $liveFiles == old($liveFiles) - 1 && $liveMaps == old($liveMaps) - 1
+//@ ensures old(s.refs) != 1 ==> s.synIndexCache.cache == old(s.synIndexCache.cache) [C20]
 //@ end
 
 //@ func (*Segment).Close returns (err)
 //@ thin
 //@ tags [C20]
-//@ requires s.synIndexCache != nil && muHeld(s.synIndexCache.m) == 0
+//@ requires s.synIndexCache != nil && muHeld(s.synIndexCache.m) == 0 && vecCacheFree(s)
 //@ requires muHeld(s.m) == 0
 //@ requires s.refs == 1 ==> (s.mm != nil ==> mmMapped(base(s.mm))) && (s.f != nil ==> fileOpen(s.f))
 //@ ensures s.refs == old(s.refs) - 1 || old(s.refs) == -9223372036854775808
 //@ ensures old(s.refs) != 1 ==> $liveFiles == old($liveFiles) && $liveMaps == old($liveMaps)
 //@ ensures old(s.refs) == 1 && old(s.mm) != nil && s.f != nil ==> $liveFiles == old($liveFiles) - 1 && $liveMaps == old($liveMaps) - 1
+// a Close that is not the last one leaves the segment fully usable for the other holders: the caches are kept
+//@ ensures old(s.refs) != 1 ==> s.synIndexCache.cache == old(s.synIndexCache.cache) [C20]
 //@ end
 
 // ---- C17 / C18: writers, persist, merge driver ----
@@ -306,6 +314,7 @@ func verifModelBinaryWrite(w io.Writer, order binary.ByteOrder, data any) error 
 // ---- C17 / C18: the merge driver ----
 
 //@ func mergeSegmentBases returns (newDocNums, size, err)
+//@ requires forall r ref :: {muHeld(r)} muHeld(r) == 0 [C11]
 //@ thin
 //@ requires !fsExists(path)
 //@ requires dropsInRange(segmentBases, drops)
@@ -321,6 +330,7 @@ func verifModelBinaryWrite(w io.Writer, order binary.ByteOrder, data any) error 
 //@ end
 
 //@ func mergeToWriter returns (newDocNums, numDocs, storedIndexOffset, fieldsInv, fieldsMap, sectionsIndexOffset, err)
+//@ requires forall r ref :: {muHeld(r)} muHeld(r) == 0 [C11]
 //@ thin
 //@ requires cr != nil
 //@ requires dropsInRange(segments, drops)
@@ -335,6 +345,10 @@ func verifModelBinaryWrite(w io.Writer, order binary.ByteOrder, data any) error 
 //@ loop 1 invariant chanClosed(closeCh) == old(chanClosed(closeCh)) [C18]
 //@ modifies *, ghost chanClosed[closeCh]
 //@ end
+
+// the byte-copy fast path of the stored-field merge is enabled only when every input lists the same fields in
+// the same order as the first one
+//@ pred sameFieldsAs0(segments, si) = forall fi int :: {segments[si].fieldsInv[fi]} 0 <= fi && fi < len(segments[si].fieldsInv) ==> len(segments[si].fieldsInv) == len(segments[0].fieldsInv) && segments[si].fieldsInv[fi] == segments[0].fieldsInv[fi]
 
 //@ func mergeStoredAndRemap returns (storedIndexOffset, rv, err)
 //@ thin
@@ -363,6 +377,11 @@ func verifModelBinaryWrite(w io.Writer, order binary.ByteOrder, data any) error 
 
 // ---- C07 / C08 / C11: postings list reuse, counts, shared sentinels ----
 
+// The shared empty sentinels are never written: a global invariant, i.e. an implicit pre- and postcondition of
+// every function under contract and an implicit invariant of every loop (assumed again after calls).
+//@ invariant sentinelsZero : allzero(emptyPostingsList) && allzero(emptySynonymsList) [C11]
+
+
 //@ func (*Dictionary).postingsListInit returns (r)
 //@ tags [C07,C08,C11]
 //@ requires d != nil
@@ -386,7 +405,7 @@ func verifModelBinaryWrite(w io.Writer, order binary.ByteOrder, data any) error 
 
 //@ func (*PostingsList).init1Hit returns (err)
 //@ tags [C06,C07,C08,C09]
-//@ requires rv != nil
+//@ requires rv != nil && rv != emptyPostingsList
 //@ ensures err == nil && rv.docNum1Hit == fstVal & mask31Bits && rv.normBits1Hit == (fstVal >> 31) & mask31Bits
 //@ modifies PostingsList.docNum1Hit[rv], PostingsList.normBits1Hit[rv]
 //@ end
@@ -394,7 +413,8 @@ func verifModelBinaryWrite(w io.Writer, order binary.ByteOrder, data any) error 
 //@ func (*PostingsList).read returns (err)
 //@ thin
 //@ tags [C07,C08]
-//@ requires rv != nil && d != nil && d.sb != nil
+//@ requires rv != nil && rv != emptyPostingsList && d != nil
+//@ wf requires d.sb != nil
 //@ ensures err == nil ==> rv.postingsOffset == postingsOffset
 //@ ensures err == nil && postingsOffset & FSTValEncodingMask == FSTValEncoding1Hit ==> rv.docNum1Hit == postingsOffset & mask31Bits && rv.normBits1Hit == (postingsOffset >> 31) & mask31Bits [C06,C07,C08,C09]
 //@ ensures err == nil && postingsOffset & FSTValEncodingMask != FSTValEncoding1Hit ==> rv.normBits1Hit == 0 && rv.docNum1Hit == 0 [C07,C08]
@@ -477,11 +497,19 @@ func lemma1HitDiscriminator(docNum, normBits uint64) {
 //@ assert (*Thesaurus).synonymsListFromOffset#1 : !bm64Empty(newRoaring) ==> bytesEq(row(prevTerm), off(prevTerm), len(prevTerm), row(term), off(term), len(term)) [C13]
 //@ assert (*vellum.Builder).Close#1 : bm64Empty(newRoaring) [C13]
 //@ assert newEnumerator#1 : len(termSynMap) == 0 && newSynonymID == 0 [C13]
+// the per-thesaurus parallel slices (iterators, thesauri, deletion bitmaps, doc-number tables) are rebuilt for every
+// thesaurus and stay aligned: entry j of each belongs to the j-th input segment that has this thesaurus
+//@ loop 2 invariant len(drops) == len(itrs) && len(thesauri) == len(itrs) && len(newDocNums) == len(itrs) && len(itrs) <= $k [C13]
+//@ assert newEnumerator#1 : len(drops) == len(itrs) && len(thesauri) == len(itrs) && len(newDocNums) == len(itrs) [C13]
 //@ assert (*Thesaurus).synonymsListFromOffset#1 : $except == drops[itrI] && $t == thesauri[itrI] [C13]
 //@ ensures chanClosed(closeCh) && !old(chanClosed(closeCh)) ==> err == seg.ErrClosed [C18]
 //@ loop 1 invariant chanClosed(closeCh) == old(chanClosed(closeCh)) [C18]
 //@ loop 2 invariant chanClosed(closeCh) == old(chanClosed(closeCh)) [C18]
 //@ loop 3 invariant chanClosed(closeCh) == old(chanClosed(closeCh)) [C18]
+// the reused iterator is never the shared empty sentinel (it is nil or came from iterator())
+//@ loop 1 invariant synItr != emptySynonymsIterator [C11]
+//@ loop 2 invariant synItr != emptySynonymsIterator [C11]
+//@ loop 3 invariant synItr != emptySynonymsIterator [C11]
 //@ ensures old(chanClosed(closeCh)) ==> chanClosed(closeCh) [C18]
 //@ modifies *, ghost chanClosed[closeCh], ghost bm64Empty
 //@ end
@@ -797,6 +825,15 @@ func lemma1HitDiscriminator(docNum, normBits uint64) {
 //@ func mergeAndPersistInvertedSection returns (fieldAddrs, dvOffset, err)
 //@ thin
 //@ tags [C18]
+// the merging goroutine holds no lock (so taking a segment's mutex in dictionary() cannot self-deadlock)
+//@ requires forall r ref :: {muHeld(r)} muHeld(r) == 0 [C11]
+//@ loop 1 invariant forall r ref :: {muHeld(r)} muHeld(r) == 0 [C11]
+//@ loop 2 invariant forall r ref :: {muHeld(r)} muHeld(r) == 0 [C11]
+// the reused iterator is never the shared empty sentinel (it is nil or came from iterator())
+//@ loop 1 invariant postItr != emptyPostingsIterator [C11]
+//@ loop 2 invariant postItr != emptyPostingsIterator [C11]
+//@ loop 3 invariant postItr != emptyPostingsIterator [C11]
+//@ loop 4 invariant postItr != emptyPostingsIterator [C11]
 //@ ensures chanClosed(closeCh) && !old(chanClosed(closeCh)) ==> err == seg.ErrClosed
 //@ ensures old(chanClosed(closeCh)) ==> chanClosed(closeCh)
 //@ loop 1 invariant chanClosed(closeCh) == old(chanClosed(closeCh))
@@ -804,6 +841,10 @@ func lemma1HitDiscriminator(docNum, normBits uint64) {
 //@ loop 3 invariant chanClosed(closeCh) == old(chanClosed(closeCh))
 //@ loop 3 invariant prevTerm != nil ==> coderSized(tfEncoder) && coderSized(locEncoder) [C01,C06]
 //@ assume mergeAndPersistInvertedSection$2#1 : row(prevTerm) == old(row(prevTerm)) && row(term) == old(row(term))
+// the live cardinality of a term (which decides its chunk size) and its postings are taken from the same
+// dictionary with the same deletion bitmap: position idx / itrI of the per-field parallel slices
+//@ assert (*Dictionary).postingsListFromOffset#1 : $d == dicts[idx] && $except == drops[idx] && $postingsOffset == lowItrVals[i] [C06,C08]
+//@ assert (*Dictionary).postingsListFromOffset#2 : $d == dicts[itrI] && $except == drops[itrI] && $postingsOffset == postingsOffset [C06,C08]
 //@ loop 5 invariant chanClosed(closeCh) == old(chanClosed(closeCh))
 //@ modifies *, ghost chanClosed[closeCh], ghost bmSet, ghost itSet, ghost coderSized
 //@ end
@@ -811,6 +852,7 @@ func lemma1HitDiscriminator(docNum, normBits uint64) {
 //@ func (*invertedTextIndexSection).Merge returns (err)
 //@ thin
 //@ tags [C18]
+//@ requires forall r ref :: {muHeld(r)} muHeld(r) == 0 [C11]
 //@ ensures chanClosed(closeCh) && !old(chanClosed(closeCh)) ==> err == seg.ErrClosed
 //@ ensures old(chanClosed(closeCh)) ==> chanClosed(closeCh)
 //@ propagates err from mergeAndPersistInvertedSection [C17,C18]
@@ -820,6 +862,7 @@ func lemma1HitDiscriminator(docNum, normBits uint64) {
 //@ func (*synonymIndexSection).Merge returns (err)
 //@ thin
 //@ tags [C18]
+//@ wf requires w != nil
 //@ ensures chanClosed(closeCh) && !old(chanClosed(closeCh)) ==> err == seg.ErrClosed
 //@ ensures old(chanClosed(closeCh)) ==> chanClosed(closeCh)
 //@ propagates err from mergeAndPersistSynonymSection [C17,C18]
@@ -1015,7 +1058,14 @@ func lemmaUvLenRange(a []byte, o int) {}
 //@ tags [C05]
 //@ requires forall i int :: 0 <= i && i < len(segments) ==> segments[i] != nil
 //@ ensures len(rv) >= 1 && rv[0] == "_id"
+//@ ensures same ==> (forall si int :: 0 <= si && si < len(segments) ==> old(sameFieldsAs0(segments, si))) [C05]
+//@ loop 1 invariant fieldsSame ==> (forall si int :: 0 <= si && si < $k ==> old(sameFieldsAs0(segments, si))) [C05]
+//@ loop 1 invariant 0 <= $k && $k <= len(segments) && (len(segments) > 0 ==> segment0Fields == segments[0].fieldsInv)
+//@ loop 2 invariant fieldsSame ==> (forall si int :: 0 <= si && si < $k2 ==> old(sameFieldsAs0(segments, si))) [C05]
+//@ loop 2 invariant fieldsSame ==> (forall fi int :: {fields[fi]} 0 <= fi && fi < $k ==> len(fields) == len(segment0Fields) && fields[fi] == segment0Fields[fi]) [C05]
+//@ loop 2 invariant 0 <= $k && $k <= len(fields) && fields == segment.fieldsInv && segment0Fields == segments[0].fieldsInv && len(segments) > 0 && 0 <= $k2 && $k2 < len(segments) && segment == segments[$k2]
 //@ loop 3 invariant len(rv) >= 1 && rv[0] == "_id" && fresh(rv) && base(rv) != nil
+//@ loop 3 invariant fieldsSame ==> (forall si int :: 0 <= si && si < len(segments) ==> old(sameFieldsAs0(segments, si))) [C05]
 //@ end
 
 //@ func mapFields returns (rv)
@@ -1206,6 +1256,21 @@ func lemmaUvLenRange(a []byte, o int) {}
 //@ propagates err from (*chunkedContentCoder).flushContents [C03,C17]
 //@ end
 
+// ---- C08 / C06 / C13: the merge enumerator ignores no live input iterator ----
+// an input iterator is exhausted exactly when it reports (nil key, value 0); the empty key of a live iterator is a
+// nil slice with a non-zero value and must take part in the merge (it is skipped only when the caller asks for it)
+//@ pred enumLive(m, i, skip) = !(base(m.currKs[i]) == nil && m.currVs[i] == 0) && !(len(m.currKs[i]) == 0 && skip)
+//@ func (*enumerator).updateMatches
+//@ thin
+//@ tags [C06,C08,C13]
+//@ requires m != nil
+//@ wf requires len(m.currVs) == len(m.currKs)
+//@ ensures len(m.lowIdxs) == 0 <==> (forall i int :: {m.currKs[i]} 0 <= i && i < len(m.currKs) ==> !enumLive(m, i, skipEmptyKey)) [C08]
+//@ ensures m.lowCurr == 0 && m.currKs == old(m.currKs) && m.currVs == old(m.currVs) && row(m.currKs) == old(row(m.currKs)) && row(m.currVs) == old(row(m.currVs))
+//@ loop 1 invariant 0 <= $k && $k <= len(m.currKs) && m.currKs == old(m.currKs) && m.currVs == old(m.currVs) && row(m.currKs) == old(row(m.currKs)) && row(m.currVs) == old(row(m.currVs)) && m.lowCurr == 0
+//@ loop 1 invariant len(m.lowIdxs) == 0 <==> (forall i int :: {m.currKs[i]} 0 <= i && i < $k ==> !enumLive(m, i, skipEmptyKey)) [C08]
+//@ end
+
 // ---- C12: thesaurus lookups ----
 
 // a field that is not a thesaurus of this build has no thesaurus address (Thesaurus(name) then answers "empty")
@@ -1259,12 +1324,32 @@ func lemmaSynonymCodeRoundTrip(synonymID, docID uint32) {
 
 //@ func (*Thesaurus).synonymsListInit returns (r)
 //@ tags [C11,C12]
-//@ requires t != nil && allzero(emptySynonymsList)
+//@ wf requires t != nil
 //@ ensures r != nil && r != emptySynonymsList && allzero(emptySynonymsList) [C11]
 //@ ensures (rv == nil || rv == emptySynonymsList) ==> fresh(r) && r.synonyms == nil
 //@ ensures rv != nil && rv != emptySynonymsList ==> r == rv && r.synonyms == old(rv.synonyms) && r.buffer == old(rv.buffer)
 //@ ensures r.sb == t.sb && r.except == except && r.synIDTermMap == t.synIDTermMap && allzero(r, sb, except, synIDTermMap, synonyms, buffer)
 //@ ensures r.synonyms != nil ==> bm64Empty(r.synonyms)
+//@ end
+
+//@ func (*SynonymsList).read returns (err)
+//@ thin
+//@ tags [C11,C12]
+//@ requires rv != nil && rv != emptySynonymsList
+//@ wf requires t != nil && t.sb != nil && rv.buffer != nil
+//@ ensures err == nil ==> rv.synonyms != nil [C12]
+//@ ensures rv.except == old(rv.except) && rv.sb == old(rv.sb) && rv.synIDTermMap == old(rv.synIDTermMap) && rv.buffer == old(rv.buffer)
+//@ ensures rv.synonyms == old(rv.synonyms) || (old(rv.synonyms) == nil && fresh(rv.synonyms))
+//@ modifies SynonymsList.synonymsOffset[rv], SynonymsList.synonyms[rv], alloc, ghost bm64Empty, elems(any)
+//@ end
+
+//@ func (*Thesaurus).synonymsListFromOffset returns (r, err)
+//@ thin
+//@ tags [C11,C12,C13]
+//@ wf requires t != nil && t.sb != nil
+//@ ensures err == nil ==> r != nil && r != emptySynonymsList [C12]
+//@ ensures err == nil ==> r.synonyms != nil [C12]
+//@ ensures err == nil ==> r.except == except [C12]
 //@ end
 
 //@ func (*SynonymsList).iterator returns (it)
@@ -1423,7 +1508,9 @@ func lemmaSynonymCodeRoundTrip(synonymID, docID uint32) {
 //@ func (*SegmentBase).dictionary returns (rv, err)
 //@ thin
 //@ tags [C08,C11]
-//@ requires sb != nil && muHeld(sb.m) == 0
+//@ wf requires sb != nil
+//@ requires muHeld(sb.m) == 0
+//@ modifies maps, alloc, new Dictionary.*, ghost muHeld[addr(sb.m)], new ghost rdFst, elems(any)
 //@ ensures muHeld(sb.m) == 0 [C08,C11]
 //@ ensures err != nil ==> rv == nil [C08]
 //@ ensures rv != nil ==> rv.sb == sb && fresh(rv) [C02,C08]
@@ -1445,7 +1532,7 @@ func lemmaSynonymCodeRoundTrip(synonymID, docID uint32) {
 //@ func (*Dictionary).postingsListFromOffset returns (r, err)
 //@ thin
 //@ tags [C02,C07,C08]
-//@ requires d != nil && d.sb != nil && allzero(emptyPostingsList)
+//@ wf requires d != nil && d.sb != nil
 //@ ensures err == nil ==> r != nil && r != emptyPostingsList && plDocsIs(r, docsAt(row(d.sb.mem), off(d.sb.mem), postingsOffset)) [C02,C08]
 //@ ensures err == nil ==> r.except == except && r.sb == d.sb
 //@ ensures allzero(emptyPostingsList) [C11]
@@ -1456,7 +1543,8 @@ func lemmaSynonymCodeRoundTrip(synonymID, docID uint32) {
 //@ func (*Dictionary).postingsList returns (r, err)
 //@ thin
 //@ tags [C02,C07,C08]
-//@ requires d != nil && d.sb != nil && allzero(emptyPostingsList) && (d.fstReader != nil ==> rdFst(d.fstReader) == d.fst)
+//@ wf requires d != nil && d.sb != nil
+//@ requires d.fstReader != nil ==> rdFst(d.fstReader) == d.fst
 //@ ensures err == nil ==> r != nil
 //@ ensures err == nil && (d.fstReader == nil || !fstHas(d.fst, str(term))) ==> plDocsIs(r, sEmpty()) [C02,C08]
 //@ ensures err == nil && d.fstReader != nil && fstHas(d.fst, str(term)) ==> plDocsIs(r, docsAt(row(d.sb.mem), off(d.sb.mem), fstVal(d.fst, str(term)))) [C02,C08]
